@@ -35,6 +35,19 @@ for p in props:
     checks.append(c)
     for e in m.get("engines", []):
         engines.append(e)
+# stand-alone extension engines (growth of the specification beyond the listed properties): components no listed
+# property is anchored in; run with `./check <eid>`; never part of a listed property's verdict
+sp = os.path.join(here, "standalone_engines.txt")
+if os.path.exists(sp):
+    for eid in [l.strip() for l in open(sp) if l.strip() and not l.startswith("#")]:
+        mod = importlib.import_module("checks." + eid)
+        m = getattr(mod, "MANIFEST", {}) or {}
+        es = m.get("engines") or ([getattr(mod, "ENGINE")] if hasattr(mod, "ENGINE") else [])
+        for e in es:
+            e = dict(e)
+            e["serves_properties"] = []
+            e["kind_free_text"] = ("stand-alone extension engine (./check %s; evidence/engines/%s.json): " % (eid, eid)) + e.get("kind_free_text", "")
+            engines.append(e)
 hooks_commits = []
 hp = os.path.join(here, "hooks_commits.txt")
 if os.path.exists(hp):
